@@ -106,6 +106,22 @@ static void rec_double(const char * src, double v) {
     SCPI_ResultDouble(&ctx, v);
     outb[outn] = 0;
     bytes("tr", outb);
+    /* the same value as a later item of a response (after the separator) and through SCPI_NumberToStr */
+    outn = 0;
+    ctx.output_count = 0;
+    SCPI_ResultInt32(&ctx, 0);
+    SCPI_ResultDouble(&ctx, v);
+    outb[outn] = 0;
+    bytes("tr2", (outn >= 2 && outb[0] == '0' && outb[1] == ',') ? outb + 2 : outb);
+    {
+        scpi_number_t num;
+        memset(&num, 0, sizeof num);
+        num.special = FALSE; num.content.value = v; num.unit = SCPI_UNIT_NONE; num.base = 10;
+        memset(s, 0x55, sizeof s);
+        SCPI_NumberToStr(&ctx, scpi_special_numbers_def, &num, s, sizeof s);
+        s[sizeof s - 1] = 0;
+        bytes("tn", s);
+    }
 #if USE_CUSTOM_DTOSTRE
     {
         int p;
@@ -140,6 +156,12 @@ static void rec_float(const char * src, float f) {
     SCPI_ResultFloat(&ctx, f);
     outb[outn] = 0;
     bytes("tr", outb);
+    outn = 0;
+    ctx.output_count = 0;
+    SCPI_ResultInt32(&ctx, 0);
+    SCPI_ResultFloat(&ctx, f);
+    outb[outn] = 0;
+    bytes("tr2", (outn >= 2 && outb[0] == '0' && outb[1] == ',') ? outb + 2 : outb);
     fprintf(out, "}\n");
     nlines++;
 }
